@@ -16,6 +16,7 @@ UNIT = dict(
     fns={
         "BulkheadLayer::new": dict(file="bhlayer"),
         "BulkheadConfigBuilder::new": dict(file="bhconfig", rules=[("sub", "R6-name", r"\"[^\"]*\"\.to_string\(\)", "vx_wrap()", 1)]),
+        "BulkheadConfigBuilder::default@Default": dict(file="bhconfig"),
         "BulkheadConfigBuilder::max_concurrent_calls": setter("bhconfig"),
         "BulkheadConfigBuilder::max_wait_duration": setter("bhconfig"),
         "BulkheadConfigBuilder::reject_when_full": setter("bhconfig"),
@@ -34,6 +35,12 @@ UNIT = dict(
         "RateLimiterConfigBuilder::on_permit_acquired": setter("rlconfig", LISTEN),
         "RateLimiterConfigBuilder::on_permit_rejected": setter("rlconfig", LISTEN),
         "RateLimiterConfigBuilder::on_permits_refreshed": setter("rlconfig", LISTEN),
+        "RateLimiterConfigBuilder::new": dict(file="rlconfig", rules=[("sub", "R6-name", r"\"[^\"]*\"\.to_string\(\)", "vx_wrap()", 1)]),
+        "RateLimiterConfigBuilder::default@Default": dict(file="rlconfig"),
+        "HedgeDelay::default@Default": dict(file="hgconfig"),
+        "HedgeConfig::default@Default": dict(file="hgconfig"),
+        "HedgeConfigBuilder::new": dict(file="hgconfig"),
+        "HedgeConfigBuilder::default@Default": dict(file="hgconfig"),
         "RateLimiterConfigBuilder::build": dict(file="rlconfig", rules=[("sub", "R9-paths", r"crate::RateLimiterLayer", "RateLimiterLayer", -1)]),
         "HedgeLayer::from_config": dict(file="hglayer"),
         "HedgeConfigBuilder::name": setter("hgconfig", INTO),
